@@ -20,6 +20,10 @@ pub enum K {
     IfElse(bool, bool),
     /// conditions, number of conditions (2|3), arm holding the child (n = the final else)
     ElseIf([bool; 3], u8, u8),
+    /// a taken branch with an empty body before the child's `else` (0: if, 1: else-if)
+    EmptyTaken(u8),
+    /// an empty body in a loop / function around the construct is not special
+    IfEmptyThen(bool),
     While,
     ForList,
     ForVar,
@@ -73,6 +77,9 @@ impl K {
                 s.push_str("}\n");
                 s
             }
+            K::EmptyTaken(0) => format!("if true {{\n}} else {{\n{}}}\n", child),
+            K::EmptyTaken(_) => format!("if false {{\nprint(\"{} no\")\n}} else if true {{\n}} else {{\n{}}}\n", d, child),
+            K::IfEmptyThen(c) => format!("if {} {{\n}}\n{}", b(c), child),
             K::While => format!(
                 "w{d} := 0\nwhile w{d} < 3 {{\nw{d} += 1\nprint(w{d})\n{child}}}\n",
                 d = d,
@@ -148,6 +155,9 @@ pub fn constructs(full: bool) -> Vec<K> {
         v.push(K::ElseIf([true, false, false], 3, 3));
     }
     v.extend_from_slice(&[
+        K::EmptyTaken(0),
+        K::EmptyTaken(1),
+        K::IfEmptyThen(true),
         K::While,
         K::ForList,
         K::ForVar,
@@ -400,6 +410,8 @@ fn kind_code(k: K) -> u8 {
         K::IfElse(..) => 2,
         K::ElseIf(_, 2, _) => 3,
         K::ElseIf(..) => 4,
+        K::EmptyTaken(_) => 14,
+        K::IfEmptyThen(_) => 15,
         K::While => 5,
         K::ForList => 6,
         K::ForVar => 7,
